@@ -119,17 +119,18 @@ theorem firstQueries_quiet {E : Env S Unit π} {rank} {Good} (R : RunHyp E rank 
     (fuel : Nat) :
     ∀ (nts : List (NT S Unit)) (s s' : St S Unit π), Quiet0 E H0 s → firstQueries E fuel nts s = some s' →
       ∀ (done : NT S Unit → Prop), (∀ nt, done nt → s.heapOf nt ≠ [] → s.succOf nt ≠ []) →
-      Quiet0 E H0 s' ∧ (∀ nt, (done nt ∨ nt ∈ nts) → s'.heapOf nt ≠ [] → s'.succOf nt ≠ []) := by
+      Quiet0 E H0 s' ∧ (∀ nt, (done nt ∨ nt ∈ nts) → s'.heapOf nt ≠ [] → s'.succOf nt ≠ []) ∧
+      s'.deleted = s.deleted := by
   intro nts
   induction nts with
   | nil =>
     intro s s' q h done hd
     simp only [firstQueries, Option.some.injEq] at h
     subst h
-    exact ⟨q, fun nt hn => by
+    exact ⟨q, (fun nt hn => by
       rcases hn with hn | hn
       · exact hd nt hn
-      · cases hn⟩
+      · cases hn), rfl⟩
   | cons nt0 rest ih =>
     intro s s' q h done hd
     unfold firstQueries at h
@@ -161,8 +162,8 @@ theorem firstQueries_quiet {E : Env S Unit π} {rank} {Good} (R : RunHyp E rank 
             have := c.post v hr2
             rw [hempty] at this; simp at this
           | none => exact absurd (c.none_post hr2).2 hh
-      obtain ⟨q', hfin⟩ := ih _ _ q1 h (fun nt => done nt ∨ nt = nt0) hd1
-      refine ⟨q', ?_⟩
+      obtain ⟨q', hfin, hdel'⟩ := ih _ _ q1 h (fun nt => done nt ∨ nt = nt0) hd1
+      refine ⟨q', ?_, hdel'.trans c.del⟩
       intro nt hn
       apply hfin
       rcases hn with hn | hn
@@ -178,11 +179,13 @@ structure RG (E : Env S Unit π) (H0 : NT S Unit → List (π × Prog)) (g : Gen
   quiet : Quiet E H0 g.st
   chain : chainFrom (g.st.succOf E.G.start) none full
   cur : g.current = lastOr none full
+  del_len : g.st.deleted.length ≤ full.length
 
 theorem nextLoop_run {E : Env S Unit π} {rank} {Good} (R : RunHyp E rank Good) {H0 : NT S Unit → List (π × Prog)}
     (fuel : Nat) :
     ∀ (k : Nat) (s : St S Unit π) (cur : Option Prog) (full : List Prog) (g' : Gen S Unit π) (r : Option Prog),
       Quiet E H0 s → chainFrom (s.succOf E.G.start) none full → cur = lastOr none full →
+      s.deleted.length ≤ full.length →
       nextLoop E fuel k s cur = some (g', r) →
       ∃ rej, RG E H0 g' (full ++ rej ++ r.toList) ∧ g'.started = true ∧ (∀ x ∈ rej, E.filter x = false) ∧
         (∀ p, r = some p → E.filter p = true) ∧
@@ -190,9 +193,9 @@ theorem nextLoop_run {E : Env S Unit π} {rank} {Good} (R : RunHyp E rank Good) 
           g'.st.heapOf E.G.start = []) := by
   intro k
   induction k with
-  | zero => intro s cur full g' r _ _ _ h; simp [nextLoop] at h
+  | zero => intro s cur full g' r _ _ _ _ h; simp [nextLoop] at h
   | succ k ih =>
-    intro s cur full g' r q hch hcur h
+    intro s cur full g' r q hch hcur hdl h
     unfold nextLoop at h
     have hpre : OPre E H0 (.query E.G.start cur) s := by
       intro x hx
@@ -211,10 +214,13 @@ theorem nextLoop_run {E : Env S Unit π} {rank} {Good} (R : RunHyp E rank Good) 
       have c := big_core R.law hb q.full trivial trivial hpre
       simp only [Option.some.injEq, Prod.mk.injEq] at h
       obtain ⟨rfl, rfl⟩ := h
-      refine ⟨[], ⟨q1.quiet (hs1 q.started), ?_, ?_⟩, rfl, (by intro x hx; cases hx), (by intro p hp; cases hp), ?_⟩
+      refine ⟨[], ⟨q1.quiet (hs1 q.started), ?_, ?_, ?_⟩, rfl, (by intro x hx; cases hx), (by intro p hp; cases hp), ?_⟩
       · simp only [List.append_nil, Option.toList]
         exact chainFrom_stable (fun k v hk => c.stable _ k v hk) _ _ hch
       · simp only [List.append_nil, Option.toList]; exact hcur
+      · simp only [List.append_nil, Option.toList]
+        show s1.deleted.length ≤ full.length
+        rw [c.del]; exact hdl
       · intro _
         simp only [List.append_nil]
         rw [← hcur]
@@ -231,17 +237,25 @@ theorem nextLoop_run {E : Env S Unit π} {rank} {Good} (R : RunHyp E rank Good) 
       · rename_i hacc
         simp only [Option.some.injEq, Prod.mk.injEq] at h
         obtain ⟨rfl, rfl⟩ := h
-        refine ⟨[], ⟨hq1, ?_, ?_⟩, rfl, (by intro x hx; cases hx), ?_, (by intro hr; cases hr)⟩
+        refine ⟨[], ⟨hq1, ?_, ?_, ?_⟩, rfl, (by intro x hx; cases hx), ?_, (by intro hr; cases hr)⟩
         · simpa using hch1
         · simp [lastOr_snoc]
+        · show s1.deleted.length ≤ (full ++ [] ++ (some p).toList).length
+          rw [c.del]; simp; omega
         · intro p' hp'; cases hp'; exact hacc
       · rename_i hrej
         have hrej' : E.filter p = false := by simpa using hrej
         have hq2 := quiet_addDeleted hq1 p hrej'
         have hsucc2 : (s1.addDeleted p).succOf E.G.start = s1.succOf E.G.start := by
           unfold St.addDeleted; split <;> rfl
+        have hdl2 : (s1.addDeleted p).deleted.length ≤ (full ++ [p]).length := by
+          have h1 : s1.deleted.length ≤ full.length := by rw [c.del]; exact hdl
+          unfold St.addDeleted
+          split
+          · simp; omega
+          · simp; omega
         obtain ⟨rej, hrg, hst, hrejs, hacc, hnone⟩ := ih (s1.addDeleted p) (some p) (full ++ [p]) g' r hq2
-          (by rw [hsucc2]; exact hch1) (by rw [lastOr_snoc]) h
+          (by rw [hsucc2]; exact hch1) (by rw [lastOr_snoc]) hdl2 h
         refine ⟨p :: rej, ?_, hst, ?_, hacc, ?_⟩
         · have : full ++ (p :: rej) ++ r.toList = full ++ [p] ++ rej ++ r.toList := by simp
           rw [this]; exact hrg
@@ -313,7 +327,7 @@ theorem cachedM_empty (E : Env S Unit π) : CachedM (St.empty (π := π) E.G) :=
 theorem preHeaps_quiet {E : Env S Unit π} {rank} {Good} (L : Law E rank Good) (HI : InitHyp E rank)
     (hkeys : (AList.keys E.G.rules).Nodup) (fuel : Nat) :
     ∀ s3, preHeaps E fuel (St.empty E.G) = some s3 →
-      Quiet0 E s3.heapOf s3 ∧ (∀ nt, AList.lookup nt E.G.rules = none → s3.heapOf nt = []) := by
+      Quiet0 E s3.heapOf s3 ∧ (∀ nt, AList.lookup nt E.G.rules = none → s3.heapOf nt = []) ∧ s3.deleted = [] := by
   intro s3 h
   unfold preHeaps at h
   split at h
@@ -343,21 +357,22 @@ theorem preHeaps_quiet {E : Env S Unit π} {rank} {Good} (L : Law E rank Good) (
       have f1 := (init_frame E fuel).1 _ _ _ h1
       have f2 := reevaluate_frame E fuel _ _ _ h2
       have hn2 : NInv s2 := f2.ninv (f1.ninv (ninv_empty E.G))
-      exact base_quiet L hkeys s2 s3 k2 hm2 hc2 hs2 hn2 hempty h
+      obtain ⟨b1, b2⟩ := base_quiet L hkeys s2 s3 k2 hm2 hc2 hs2 hn2 hempty h
+      exact ⟨b1, b2, (initHeaps_ninv E _ _ _ hn2 h).1.no_deleted⟩
 
 /-- **the prologue of `generator()` leaves a quiescent state** (every fuel) -/
 theorem prologue_quiet {E : Env S Unit π} {rank} {Good} (R : RunHyp E rank Good) (HI : InitHyp E rank)
     (hkeys : (AList.keys E.G.rules).Nodup) (fuel : Nat) :
-    ∀ s0, prologue E fuel (St.empty E.G) = some s0 → ∃ H0, Quiet E H0 s0 := by
+    ∀ s0, prologue E fuel (St.empty E.G) = some s0 → ∃ H0, Quiet E H0 s0 ∧ s0.deleted = [] := by
   intro s0 hp
   rw [prologue_eq] at hp
   split at hp
   · simp at hp
   · rename_i s3 h3
-    obtain ⟨q3, hnorow⟩ := preHeaps_quiet R.law HI hkeys fuel s3 h3
-    obtain ⟨q0, hst⟩ := firstQueries_quiet R fuel _ _ _ q3 hp (fun nt => AList.lookup nt E.G.rules = none)
+    obtain ⟨q3, hnorow, hd3⟩ := preHeaps_quiet R.law HI hkeys fuel s3 h3
+    obtain ⟨q0, hst, hd0⟩ := firstQueries_quiet R fuel _ _ _ q3 hp (fun nt => AList.lookup nt E.G.rules = none)
       (fun nt hn hh => absurd (hnorow nt hn) hh)
-    refine ⟨s3.heapOf, q0.quiet ?_⟩
+    refine ⟨s3.heapOf, q0.quiet ?_, hd0.trans hd3⟩
     intro nt hh
     apply hst nt _ hh
     cases hl : AList.lookup nt E.G.rules with
@@ -492,7 +507,7 @@ theorem next_run {E : Env S Unit π} {rank} {Good} (A : AllHyp E rank Good) (fue
   split at h
   · rename_i hs
     obtain ⟨H0, hrg⟩ := hst hs
-    obtain ⟨rej, a, a', b, c, d⟩ := nextLoop_run A.run fuel fuel g.st g.current full g' r hrg.quiet hrg.chain hrg.cur h
+    obtain ⟨rej, a, a', b, c, d⟩ := nextLoop_run A.run fuel fuel g.st g.current full g' r hrg.quiet hrg.chain hrg.cur hrg.del_len h
     exact ⟨H0, rej, a, a', b, c, d⟩
   · rename_i hs
     have hs' : g.started = false := by simpa using hs
@@ -501,10 +516,10 @@ theorem next_run {E : Env S Unit π} {rank} {Good} (A : AllHyp E rank Good) (fue
     · simp at h
     · rename_i s0 hp
       rw [e1] at hp
-      obtain ⟨H0, q0⟩ := prologue_quiet A.run A.init A.keys fuel s0 hp
+      obtain ⟨H0, q0, hd0⟩ := prologue_quiet A.run A.init A.keys fuel s0 hp
       subst e3
       obtain ⟨rej, a, a', b, c, d⟩ := nextLoop_run A.run fuel fuel s0 g.current [] g' r q0 trivial
-        (by rw [e2]; rfl) h
+        (by rw [e2]; rfl) (by rw [hd0]; exact Nat.le_refl _) h
       exact ⟨H0, rej, a, a', b, c, d⟩
 
 /-- what is known after `take`: `out` is the accepted part of the chain `full` popped for the start symbol -/
